@@ -275,28 +275,131 @@ func extractClosure(fd *ast.FuncDecl) (closure, string) {
 	return cl, name
 }
 
-// serverCalls counts rpc.NewServer calls in newRPCServer and how many of them
-// serve the cluster host with the closure installed.
-func serverCalls(fd *ast.FuncDecl, c, authF string) (total, guarded int) {
-	ast.Inspect(fd.Body, func(n ast.Node) bool {
-		call, ok := n.(*ast.CallExpr)
-		if !ok || str(call.Fun) != "rpc.NewServer" {
-			return true
+// serverOptions interprets the straight-line part of newRPCServer once for each value of
+// c.config.Tracing (the only configuration field besides RPCPolicy that the function reads) and
+// returns the host and option expressions of the one rpc.NewServer call that is reached.
+// Understood: option slices (`opts := []rpc.ServerOption{…}`, `opts = append(opts, …)`,
+// `opts = []rpc.ServerOption{…}`), `if c.config.Tracing {…} else {…}` (also negated), and
+// `s = rpc.NewServer(host, proto, o1, o2, opts...)`. Anything else that touches an option slice
+// or creates a server is an unrecognised shape.
+func serverOptions(fd *ast.FuncDecl, c string, tracing bool) (host string, opts []string) {
+	env := map[string][]string{}
+	tracked := map[string]bool{}
+	type server struct {
+		host string
+		opts []string
+	}
+	var servers []server
+	sensitive := func(n ast.Node) bool {
+		hit := false
+		ast.Inspect(n, func(x ast.Node) bool {
+			switch y := x.(type) {
+			case *ast.CallExpr:
+				if str(y.Fun) == "rpc.NewServer" {
+					hit = true
+				}
+			case *ast.Ident:
+				if tracked[y.Name] {
+					hit = true
+				}
+			}
+			return !hit
+		})
+		return hit
+	}
+	isOptSlice := func(e ast.Expr) bool { return strings.ReplaceAll(str(e), " ", "") == "[]rpc.ServerOption" }
+	expand := func(args []ast.Expr, ellipsis bool) []string {
+		var out []string
+		for i, a := range args {
+			if ellipsis && i == len(args)-1 {
+				v, ok := env[str(a)]
+				if !ok || !tracked[str(a)] {
+					die("spread of %s, which is not a known option slice", str(a))
+				}
+				out = append(out, v...)
+				continue
+			}
+			if sensitive(a) {
+				die("option expression %s", str(a))
+			}
+			out = append(out, str(a))
 		}
-		total++
-		okHost := len(call.Args) >= 2 && str(call.Args[0]) == c+".host"
-		okAuth := false
-		for _, a := range call.Args[2:] {
-			if str(a) == "rpc.WithAuthorizeFunc("+authF+")" {
-				okAuth = true
+		return out
+	}
+	var interp func(stmts []ast.Stmt)
+	interp = func(stmts []ast.Stmt) {
+		for _, st := range stmts {
+			switch x := st.(type) {
+			case *ast.BlockStmt:
+				interp(x.List)
+				continue
+			case *ast.DeclStmt:
+				gd, ok := x.Decl.(*ast.GenDecl)
+				if ok && gd.Tok == token.VAR && len(gd.Specs) == 1 {
+					vs := gd.Specs[0].(*ast.ValueSpec)
+					if vs.Type != nil && isOptSlice(vs.Type) && len(vs.Names) == 1 && len(vs.Values) == 0 {
+						tracked[vs.Names[0].Name] = true
+						env[vs.Names[0].Name] = nil
+						continue
+					}
+				}
+			case *ast.AssignStmt:
+				if len(x.Lhs) == 1 && len(x.Rhs) == 1 {
+					lhs := str(x.Lhs[0])
+					switch r := x.Rhs[0].(type) {
+					case *ast.CompositeLit:
+						if r.Type != nil && isOptSlice(r.Type) {
+							if !tracked[lhs] && x.Tok != token.DEFINE {
+								die("assignment of an option slice to %s", lhs)
+							}
+							vals := expand(r.Elts, false)
+							tracked[lhs] = true
+							env[lhs] = vals
+							continue
+						}
+					case *ast.CallExpr:
+						switch str(r.Fun) {
+						case "append":
+							if len(r.Args) >= 1 && tracked[str(r.Args[0])] {
+								if lhs != str(r.Args[0]) {
+									die("append into another variable: %s", str(x))
+								}
+								env[lhs] = append(append([]string{}, env[lhs]...), expand(r.Args[1:], r.Ellipsis.IsValid())...)
+								continue
+							}
+						case "rpc.NewServer":
+							if len(r.Args) < 2 {
+								die("server creation %s", str(r))
+							}
+							servers = append(servers, server{str(r.Args[0]), expand(r.Args[2:], r.Ellipsis.IsValid())})
+							continue
+						}
+					}
+				}
+			case *ast.IfStmt:
+				if x.Init == nil {
+					cond := str(x.Cond)
+					pos, neg := cond == c+".config.Tracing", cond == "!"+c+".config.Tracing"
+					if pos || neg {
+						if pos == tracing {
+							interp(x.Body.List)
+						} else if x.Else != nil {
+							interp([]ast.Stmt{x.Else})
+						}
+						continue
+					}
+				}
+			}
+			if sensitive(st) {
+				die("newRPCServer: statement touches the server options in a way the extractor does not follow: %s", str(st))
 			}
 		}
-		if okHost && okAuth {
-			guarded++
-		}
-		return true
-	})
-	return
+	}
+	interp(fd.Body.List)
+	if len(servers) != 1 {
+		die("newRPCServer creates %d rpc servers when Tracing=%v", len(servers), tracing)
+	}
+	return servers[0].host, servers[0].opts
 }
 
 // registeredTypes lists the API types registered with s.RegisterName(RPCServiceID(x), x).
@@ -631,10 +734,19 @@ func main() {
 	rpcAPI := parseFile(filepath.Join(repo, "rpc_api.go"))
 	nrs := funcDecl(rpcAPI, "", "newRPCServer")
 	cl, authF := extractClosure(nrs)
-	total, guarded := serverCalls(nrs, paramNames(nrs.Type)[0], authF)
-	if total == 0 {
-		die("newRPCServer creates no rpc server")
+	cName := paramNames(nrs.Type)[0]
+	guardedBy := func(tracing bool) (bool, []string) {
+		host, opts := serverOptions(nrs, cName, tracing)
+		ok := false
+		for _, o := range opts {
+			if o == "rpc.WithAuthorizeFunc("+authF+")" {
+				ok = true
+			}
+		}
+		return ok && host == cName+".host", append([]string{host}, opts...)
 	}
+	guardedPlain, descPlain := guardedBy(false)
+	guardedTracing, descTracing := guardedBy(true)
 	registered := registeredTypes(nrs)
 	validated := validatedTypes(funcDecl(parseFile(filepath.Join(repo, "cluster_config.go")), "", "isRPCPolicyValid"))
 
@@ -717,8 +829,10 @@ func main() {
 		w("(%s, %s)", c[0], c[1])
 	}
 	w("],\n  dflt := %s }\n\n", cl.dflt)
-	w("/-- rpc.NewServer calls in newRPCServer, and those on c.host with rpc.WithAuthorizeFunc(<closure>) -/\n")
-	w("def newServerCalls : Nat := %d\ndef newServerCallsGuarded : Nat := %d\n\n", total, guarded)
+	w("/-- host and options of the rpc.NewServer call newRPCServer reaches when Config.Tracing is false / true -/\n")
+	w("def serverPlain : List String := %s\ndef serverTracing : List String := %s\n", leanStrList(descPlain), leanStrList(descTracing))
+	w("/-- does that server serve c.host with rpc.WithAuthorizeFunc(<the closure>) installed -/\n")
+	w("def serverGuarded : Bool → Bool\n  | false => %v\n  | true => %v\n\n", guardedPlain, guardedTracing)
 	emitShape := func(name string, s shape) {
 		w("def %s : ConsensusShape := {\n  guards := [%s],\n  final := %s,\n  trustOp := %s,\n  distrustOp := %s,\n  setupTrustsConfigured := %v,\n  validator := %s }\n\n",
 			name, strings.Join(s.guards, ", "), s.final, s.trustOp, s.distrustOp, s.setup, s.validator)
